@@ -83,7 +83,7 @@ def _units():
         for d in sorted(os.listdir(fx)):
             if os.path.isfile(os.path.join(fx, d, "Cargo.toml")):
                 u[d] = [dict(cwd=os.path.join(fx, d), args=[], crates=d + ",pest_generator", tag="", flags="",
-                             fixture=True)]
+                             fixture=True, may_fail=(d == "fx_rawrep"))]
     return u
 
 
@@ -118,6 +118,11 @@ def _run_unit(unit, out_dir, log):
         log.write("$ (cd %s; %s)  [%0.1fs, rc=%d]\n" % (inv["cwd"], " ".join(cmd), time.time() - t0, p.returncode))
         if p.returncode != 0:
             log.write(p.stdout[-6000:])
+            if inv.get("may_fail"):
+                # a fixture whose compile errors are themselves the evidence (rustc as decision procedure)
+                with open(os.path.join(out_dir, "rustc_errors.txt"), "w") as fh:
+                    fh.write(p.stdout)
+                continue
             raise BuildFailed(unit, p.stdout[-3000:])
 
 
